@@ -132,6 +132,51 @@ func rulesC18(e *Engine, r *Report) {
 	r.Rule("R18.5", "every day the window touches is visited: in each() the day file of the current position is offered to the handler in every iteration BEFORE the window-end test, so the closing day (reached by the step that overshoots the end instant) is still visited; the position advances by exactly one day in the window's direction; an empty or degenerate window visits nothing")
 	e.checkDayLoop(r, "R18.5")
 
+	// ---------------------------------------------------------------- R18.6
+	r.Rule("R18.6", "records go where look-ups read: every record is written after rotate(); rotate() keeps the open handle only on the path where the day path is unchanged, the file still exists under that path (a moved or deleted day file is re-created - look-ups open by path, a stale handle writes into an inode nobody reads) and a handle is held; otherwise it (re)opens <root>/YYYYMM/DD of now with O_APPEND|O_CREATE after creating the directory, and the logger's output is the new handle")
+	if fn := needFn(e, r, "R18.6", "log.(*rollingFile).rotate"); fn != nil {
+		cur := "call(log.(*rollingFile).getCurrPath)(p0)"
+		cls := labeler(
+			C("("+cur+" == p0.path)", "samePath"), C("(p0.path == "+cur+")", "samePath"),
+			C("!call(os.IsNotExist)(call(os.Stat)("+cur+")#1)", "stillThere"),
+			C("(call(os.Stat)("+cur+")#1 == nil)", "stillThere"),
+			C("(p0.fh != nil)", "haveHandle"),
+			I("dyn(p0.open)("+cur+", §)", "opened"),
+			I("dyn(p0.mkdir)(call(filepath.Dir)("+cur+"), §)", "dirMade"),
+			I("store(p0.fh = dyn(p0.open)("+cur+", §)#0)", "handleKept"),
+			I("store(p0.path = "+cur+")", "pathKept"),
+			I("call(log.(*Logger).SetOutput)(p0.logger, p0.fh)", "outputSet"),
+		)
+		n := 0
+		for _, rw := range e.returnWorlds(r, "R18.6", fn, cls) {
+			n++
+			if rw.W.Has("opened") {
+				r.Check(rw.W.HasAll("dirMade", "handleKept", "pathKept", "outputSet"), "R18.6", "log.(*rollingFile).rotate: a (re)open creates the directory, keeps path and handle and redirects the logger "+rw.W.String(), e.InstrPos(rw.In),
+					"after re-opening the day file one of: mkdir, path/handle bookkeeping, SetOutput is missing", 1, rw.W.String())
+			} else {
+				r.Check(rw.W.HasAll("samePath", "stillThere", "haveHandle"), "R18.6", "log.(*rollingFile).rotate: the old handle is kept only for the same day, an existing file and a live handle "+rw.W.String(), e.InstrPos(rw.In),
+					"rotate() keeps writing through the old handle although the day changed, the day file is gone from its path, or no handle is open: records land where no look-up reads", 1, rw.W.String())
+			}
+		}
+		r.Min("R18.6", "return classes of rotate()", n, 2)
+		op := e.findInstrs(fn, "dyn(p0.open)("+cur+", §, §)", false)
+		okFlags := false
+		if len(op) == 1 {
+			fl := e.Canon(op[0].(ssa.CallInstruction).Common().Args[1])
+			// O_APPEND (1024) and O_CREATE (64) must be part of the constant
+			var v int
+			fmt.Sscanf(fl, "%d", &v)
+			okFlags = v&1024 != 0 && v&64 != 0 && v&3 != 0
+		}
+		r.Check(okFlags, "R18.6", "log.(*rollingFile).rotate: the day file is opened for appending, created when missing", e.Pos(fn.Pos()), "the day file is not opened with O_APPEND|O_CREATE and write access (existing records would be overwritten or a missing file not created)", 1)
+	}
+	if fn := needFn(e, r, "R18.6", "log.(*rollingFile).log"); fn != nil {
+		cls := labeler(I("call(log.(*rollingFile).rotate)(p0)", "rotated"))
+		n := e.Guarded(r, "R18.6", "log.(*rollingFile).log: the record is written after rotate()", fn, e.instrMatch("call(log.(*Logger).Println)(p0.logger, §)"), cls,
+			func(l LabelSet) bool { return l.Has("rotated") }, "rotate() first")
+		r.Min("R18.6", "record writes in log()", n, 1)
+	}
+
 	// ---------------------------------------------------------------- R18.3
 	r.Rule("R18.3", "record layout vs. parser: the receive record is name:renamed:hash:size:time: and the sent record name:hash:size:time: ms, built from the like-named getters; Parse splits on the same separator and hands the handler (field 0, field 1 when more than four fields else \"\", the next field, the next as integer, the next as unix time); the look-up's hash index follows the same rule; and a %s field must not be able to contain the separator unescaped")
 	if fn := needFn(e, r, "R18.3", "log.(*FileIO).Received"); fn != nil {
